@@ -101,6 +101,10 @@ def export_to_yaml(statechart: Statechart, filepath: str = None) -> str:
     output = StringIO()
 
     yml = yaml.YAML(typ='safe', pure=True)
+    # Always use the block style: flow mappings are folded in the middle of keys such as
+    # "on exit", and strings starting with "? " or ": " are not quoted in flow mappings.
+    # Both result in documents that cannot be parsed back.
+    yml.default_flow_style = False
     yml.dump(export_to_dict(statechart), output)
 
     if filepath:
